@@ -78,7 +78,15 @@ def main():
         shutil.rmtree(os.path.join(V, "evidence"), ignore_errors=True)
         shutil.move(save, os.path.join(V, "evidence"))
         sh([os.path.join(V, "bin", "extract")], cwd=V)
-    json.dump(summary, open(os.path.join(V, "seeded", "SUMMARY.json"), "w"), indent=1)
+    # the summary always covers every seeded change (from the meta files)
+    allsum = []
+    for sid in sorted(os.listdir(os.path.join(V, "seeded"))):
+        mp = os.path.join(V, "seeded", sid, "meta.json")
+        if os.path.exists(mp):
+            m = json.load(open(mp))
+            caught = [c for c, v in m["detected"].items() if v["reported"]]
+            allsum.append((sid, ("caught by " + ", ".join(caught)) if caught else "MISSED"))
+    json.dump(allsum, open(os.path.join(V, "seeded", "SUMMARY.json"), "w"), indent=1)
     return 0
 
 
